@@ -72,9 +72,19 @@ def _parse_params(argtext):
         m = PARAM_RE.match(a)
         if not m:
             raise PyxError("parameter %r" % a)
-        res.append((m.group("name"), bool(m.group("ptr")) and m.group("ty").strip() not in ("char", "const char", "unsigned char", "void"),
-                    m.group("default")))
+        is_ptr = bool(m.group("ptr")) and m.group("ty").strip() not in ("char", "const char", "unsigned char", "void")
+        res.append((m.group("name"), is_ptr, m.group("default")))
+        cty = " ".join(m.group("ty").split())
+        if not m.group("ptr") and cty in NARROW_INTS:
+            NARROW_PARAMS.setdefault(id(res), {})[m.group("name")] = cty
     return res
+
+
+# C integer types narrower than the 64-bit word the verifier computes in: a value stored into a variable or passed as an
+# argument of such a type is converted (the translation makes that conversion explicit with __cast__)
+NARROW_INTS = {"int32_t", "int16_t", "int8_t", "char", "int", "short", "uint32_t", "uint16_t", "uint8_t", "unsigned char",
+               "unsigned int", "signed char"}
+NARROW_PARAMS = {}
 
 
 def _scan_primary(s, i):
@@ -298,10 +308,17 @@ def translate(repo, relpath, sigs=None, _depth=0):
             emitted = False
             for d in decls:
                 d = d.rstrip(",").strip()
+                md = re.match(r"^((?:unsigned\s+|signed\s+)?[A-Za-z_]\w*)\s+(?!\*)(.+)$", d)
+                if fn_stack and md and " ".join(md.group(1).split()) in NARROW_INTS and "*" not in d:
+                    for nm in _split_top(md.group(2)):
+                        fn_stack[-1][3][nm.split("=")[0].strip()] = " ".join(md.group(1).split())
                 if "=" in d and fn_stack:
                     lhs, rhs = d.split("=", 1)
                     name = lhs.replace("*", " ").split()[-1]
-                    out.append(" " * ind + "%s = %s" % (name, _rewrite_expr(rhs.strip(), fn_stack[-1][1])))
+                    val = _rewrite_expr(rhs.strip(), fn_stack[-1][1])
+                    if name in fn_stack[-1][3]:
+                        val = '__cast__("%s", %s)' % (fn_stack[-1][3][name], val)
+                    out.append(" " * ind + "%s = %s" % (name, val))
                     emitted = True
                 elif fn_stack and "*" not in d and SCALAR_DECL_RE.match(d):
                     # an uninitialised C scalar holds an indeterminate value (its address may be passed as an out-parameter)
@@ -336,7 +353,13 @@ def translate(repo, relpath, sigs=None, _depth=0):
             out.append(" " * ind + "def %s(%s):" % (m.group("name"), ", ".join(plist)))
             for n in ptrs:
                 out.append(" " * (ind + 4) + "%s__v = %s__in" % (n, n))
-            fn_stack.append((ind, ptrs, m.group("name")))
+            narrow = dict(NARROW_PARAMS.pop(id(ps), {}))
+            if st.startswith(("cdef ", "cpdef ")):
+                # a C-level call converts each argument to the parameter's type (a Python-level `def` raises
+                # OverflowError instead: not modelled, such entry points take their arguments as given)
+                for n, cty in narrow.items():
+                    out.append(" " * (ind + 4) + '%s = __cast__("%s", %s)' % (n, cty, n))
+            fn_stack.append((ind, ptrs, m.group("name"), narrow))
             # a declaration-only header (in a .pxd) has no body; .pyx bodies follow
             i += 1
             continue
@@ -369,6 +392,12 @@ def translate(repo, relpath, sigs=None, _depth=0):
             body = _rewrite_pointer_call(body, sigs)
         except PyxError as e:
             body = "__pyx_untranslated__(%r)" % str(e)
+        narrow = fn_stack[-1][3] if fn_stack else {}
+        ma = re.match(r"^([A-Za-z_]\w*)\s*(\+|-|\*|\||&|\^|<<|>>)?=(?!=)\s*(.*)$", body)
+        if ma and ma.group(1) in narrow:
+            # a store into a C variable of a narrower integer type converts the value
+            rhs = ma.group(3) if not ma.group(2) else "%s %s (%s)" % (ma.group(1), ma.group(2), ma.group(3))
+            body = '%s = __cast__("%s", %s)' % (ma.group(1), narrow[ma.group(1)], rhs)
         if ptrs and re.match(r"^return\b", body):
             val = body[len("return"):].strip() or "None"
             body = "return (%s, %s)" % (val, ", ".join(p + "__v" for p in ptrs))
